@@ -285,8 +285,16 @@ pub fn gen_scn(rng: &mut Rng, exec: u64, prop: Prop, o: &GenOpts) -> Scn {
       };
       let ttl_on = rng.chance(1, 2);
       if ttl_on {
-        s.cache.ttl = if rng.chance(2, 3) { Some(Duration::from_millis(rng.range(1000, 20_000))) } else { None };
-        s.cache.tti = if s.cache.ttl.is_none() && rng.chance(1, 2) { Some(Duration::from_millis(rng.range(1000, 10_000))) } else { None };
+        // ttl only / tti only / both / per-entry ttl only
+        match rng.below(4) {
+          0 => s.cache.ttl = Some(Duration::from_millis(rng.range(1000, 20_000))),
+          1 => s.cache.tti = Some(Duration::from_millis(rng.range(1000, 10_000))),
+          2 => {
+            s.cache.ttl = Some(Duration::from_millis(rng.range(4000, 20_000)));
+            s.cache.tti = Some(Duration::from_millis(rng.range(1000, 6_000)));
+          }
+          _ => {}
+        }
         s.custom_ttl_ms = (500, 10_000);
         s.clock_thread = true;
       }
